@@ -56,7 +56,8 @@ def search(prop, names, failure, repo):
             # the search's own oracle could not read a value (e.g. a hand-written Debug impl): not a witness
             res.setdefault('oracle_failures', []).append(m.group(1))
             continue
-        if prop == 'C19' and re.search(r'stderr', bl) and not re.search(r'stdout', bl.split('actual:')[-1] if 'actual:' in bl else ''):
+        mio = re.search(r'actual:\s*(\d+) octet\(s\) on stdout, (\d+) on stderr', bl)
+        if prop == 'C19' and mio and int(mio.group(1)) == 0 and int(mio.group(2)) > 0:
             # octets on stderr from a crashing child are the runtime's panic/abort message: C01's business
             c01 = search('C01', names, failure, repo)
             if c01 and c01.get('failing_input'):
